@@ -141,7 +141,7 @@ def run(ctx):
     arm(ctx)
     prof = gen.Profile(p_dynamic=0.6, negative_lengths=True, max_depth=2, p_abstract=0.2, p_calibrated=0.2,
                        kinds=("integer", "float", "boolean", "string", "binary", "enumerated"))
-    ndocs = ctx.size(120, 6000)
+    ndocs = ctx.size(400, 40000)
     for d in range(ndocs):
         if not ctx.mine(d):
             continue
